@@ -89,41 +89,54 @@ class Root(reg32.AddrMap, word_count=2):
     rf: FReg[4]
 """
 
+# layout trees of Models/AxiLayout.v (python form of harness/c20_layout.py): the offsets / wmasks handed to axi_monitor_x are
+# cross-checked against the model's offsets_of / wmasks_of of these trees, and the trees against the real flatten of `regmap`
+_MW = ("leaf", 1, "RMemWord", None, "MemWord")
+_FREG = ("leaf", 1, "RRegister", [("MemField", 0, 8, False), ("MemUField", 8, 4, False), ("UField", 16, 2, False), ("Field", 24, 1, True)], None)
+
 LAYOUTS = {
     # name: regmap = register map source, regs = [(port name, expression, byte offset, default)],
-    #       wmasks = bus-writable bits per register (default all), notif = notification ports + hardware model
+    #       wmasks = bus-writable bits per register (default all), notif = notification ports + hardware model,
+    #       pytree = the layout as a tree of Models/AxiLayout.v
     "one_memword": dict(
+        pytree=("file", 2, [(0, _MW)]),
         regmap="class Root(reg32.AddrMap, word_count=2):\n    ra: reg32.MemWord[0]\n"
                f"    def _config_(self):\n        self.ra._config_({A_LIT})\n",
         regs=[("reg_a", "root.ra.raw", 0, A_DEF)]),
     "two_memwords": dict(
+        pytree=("file", 4, [(0, _MW), (4, ("leaf", 1, "RMemWord", None, "MemUWord"))]),
         regmap="class Root(reg32.AddrMap, word_count=4):\n    ra: reg32.MemWord[0]\n    rb: reg32.MemUWord[4]\n"
                f"    def _config_(self):\n        self.ra._config_({A_LIT})\n"
                "        self.rb._config_(Null)\n",
         regs=[("reg_a", "root.ra.raw", 0, A_DEF), ("reg_b", "root.rb.raw.bitvector", 4, 0)]),
     "nested_file": dict(
+        pytree=("file", 4, [(0, _MW), (8, ("file", 2, [(4, _MW)]))]),
         regmap="class Inner(reg32.RegFile, word_count=2):\n    rx: reg32.MemWord[4]\n\n"
                "class Root(reg32.AddrMap, word_count=4):\n    ra: reg32.MemWord[0]\n    sub: Inner[8]\n",
         regs=[("reg_a", "root.ra.raw", 0, 0), ("reg_x", "root.sub.rx.raw", 12, 0)]),
     # array of registers at the top level: elements at 4 and 8
     "array_top": dict(
+        pytree=("file", 4, [(4, ("arr", 8, 4, _MW))]),
         regmap="class Root(reg32.AddrMap, word_count=4):\n    arr: reg32.Array[reg32.MemWord, 4:12:4]\n"
                f"    def _config_(self):\n        self.arr[0]._config_({A_LIT})\n        self.arr[1]._config_({B_LIT})\n",
         regs=[("reg_a", "root.arr[0].raw", 4, A_DEF), ("reg_b", "root.arr[1].raw", 8, B_DEF)]),
     # array inside a register file at offset 8: elements at 8 + 0 and 8 + 4
     "array_in_file": dict(
+        pytree=("file", 4, [(8, ("file", 2, [(0, ("arr", 8, 4, _MW))]))]),
         regmap="class Inner(reg32.RegFile, word_count=2):\n    arr: reg32.Array[reg32.MemWord, 0:8:4]\n\n"
                "class Root(reg32.AddrMap, word_count=4):\n    sub: Inner[8]\n"
                f"    def _config_(self):\n        self.sub.arr[0]._config_({A_LIT})\n        self.sub.arr[1]._config_({B_LIT})\n",
         regs=[("reg_a", "root.sub.arr[0].raw", 8, A_DEF), ("reg_b", "root.sub.arr[1].raw", 12, B_DEF)]),
     # two levels of register files, both at non-zero offsets: outer@8 / inner@4 / register@0 decodes at 12
     "nested2": dict(
+        pytree=("file", 4, [(8, ("file", 2, [(4, ("file", 1, [(0, _MW)]))]))]),
         regmap="class In2(reg32.RegFile, word_count=1):\n    rx: reg32.MemWord[0]\n\n"
                "class In1(reg32.RegFile, word_count=2):\n    f: In2[4]\n\n"
                "class Root(reg32.AddrMap, word_count=4):\n    g: In1[8]\n"
                f"    def _config_(self):\n        self.g.f.rx._config_({A_LIT})\n",
         regs=[("reg_x", "root.g.f.rx.raw", 12, A_DEF)]),
     "fields": dict(
+        pytree=("file", 2, [(4, _FREG)]),
         regmap=FIELDS_SRC,
         regs=[("reg_f", "root.rf._to_bits_()", 4, 0x3C)],
         wmasks=[0xFFF],
@@ -313,6 +326,10 @@ def run(ck: common.Check, replay=None):
             ck.violation({"layout": c.meta["layout"], "phase": c.meta["phase"], "harness": "input order"},
                          "input ports of the compiled wrapper are not in the order the alphabet assumes",
                          {"inputs": list(c.design.inputs), "expected": INPUTS}, no_input=True)
+    # all-layouts part: the monitor parameters against the layout model, and the model against the real code
+    import c20_layout
+    c20_layout.params_check(ck, LAYOUTS)
+    c20_layout.run_extra(ck, LAYOUTS)
     ck.cov["cases"] = {c.name: ((dict(states=info["states"], transitions=info["transitions"]) if c.name not in BIG
                                  else dict(proved_only=True, measured=BIG[c.name])) if status == "ok" else status)
                        for c, status, info in results}
